@@ -531,6 +531,80 @@ pub fn wide_op_external_grammar(rng: &mut Rng, name: &str) -> (Value, String, St
     (g, scanner, samples)
 }
 
+/// The same operator grammar with NAMED precedence levels: level `n` is the name `L<n>` / `Lm<n>`, and the
+/// grammar's `precedences` list orders the names by descending level.  (Every prefix/postfix operator must
+/// be annotated: an un-annotated rule does not compare with a named level.)
+#[allow(dead_code)]
+pub fn op_grammar_named(name: &str, t: &OpTable) -> Value {
+    fn lname(l: i64) -> String {
+        if l < 0 { format!("Lm{}", -l) } else { format!("L{l}") }
+    }
+    fn rename(v: &mut Value) {
+        if let Some(ty) = v.get("type").and_then(|x| x.as_str()).map(|x| x.to_string()) {
+            if ty.starts_with("PREC") {
+                if let Some(l) = v["value"].as_i64() {
+                    v["value"] = Value::String(lname(l));
+                }
+            }
+        }
+        if let Some(ms) = v.get_mut("members").and_then(|m| m.as_array_mut()) {
+            for m in ms {
+                rename(m);
+            }
+        }
+        if let Some(c) = v.get_mut("content") {
+            rename(c);
+        }
+    }
+    let mut g = op_grammar(name, t);
+    if let Some(rules) = g["rules"].as_object_mut() {
+        for (_, body) in rules.iter_mut() {
+            rename(body);
+        }
+    }
+    let mut levels: Vec<i64> = t.bin.iter().map(|b| b.1).chain(t.un.iter().map(|u| u.1)).chain(t.post.iter().map(|u| u.1)).collect();
+    levels.sort();
+    levels.dedup();
+    levels.reverse();
+    g["precedences"] = Value::Array(vec![Value::Array(levels.iter().map(|l| s(&lname(*l))).collect())]);
+    g
+}
+
+/// Two same-core states whose look-ahead tokens conflict LEXICALLY: after `x val` a short token (`a`) may
+/// come, which may be followed directly by `b` — but only through a wrapper rule (`wrap → inner`, adjacency
+/// known through LAST(wrap)); after `y val` the long token `ab`.  Merging the two states would let the lexer
+/// read `ab` in the first context.  Texts of this family must be written WITHOUT separators.
+#[allow(dead_code)]
+pub fn lex_split_grammar(rng: &mut Rng, name: &str) -> Value {
+    let shorts = ["a", "i", "k", "p"];
+    let followers = ["b", "f", "n", "q"];
+    let short = *rng.pick(&shorts);
+    let follower = *rng.pick(&followers);
+    let long = format!("{short}{follower}");
+    let depth = rng.range(1, 2);
+    let mut rules: Vec<(String, Value)> = Vec::new();
+    let mut alts = vec![
+        seq(vec![s("x"), sym("val"), sym("wrap"), s(follower)]),
+        seq(vec![s("y"), sym("val"), s(&long)]),
+    ];
+    if rng.chance(1, 2) {
+        alts.push(seq(vec![s("z"), sym("val"), s("e")]));
+    }
+    rules.push(("source".into(), if rng.chance(1, 3) { rep1(choice(alts)) } else { choice(alts) }));
+    rules.push(("val".into(), if rng.chance(1, 2) { seq(vec![s("c"), s("d")]) } else { seq(vec![s("c"), s("d"), s("g")]) }));
+    let wrap_body = |inner: &str, rng: &mut Rng| -> Value {
+        if rng.chance(1, 3) { choice(vec![sym(inner), seq(vec![sym(inner), s("w"), sym(inner)])]) } else { sym(inner) }
+    };
+    if depth == 1 {
+        rules.push(("wrap".into(), wrap_body("inner", rng)));
+    } else {
+        rules.push(("wrap".into(), wrap_body("mid", rng)));
+        rules.push(("mid".into(), sym("inner")));
+    }
+    rules.push(("inner".into(), choice(vec![s(short), seq(vec![s("e"), s(short)])])));
+    grammar(name, rules, vec![pattern("\\s")], vec![], vec![])
+}
+
 /// Make binary operators alternatives of ONE rule (`binary: choice(prec.left(1, e + e), prec.right(1, e ^ e))`).
 /// `mixed`: additionally put two operators with different texts on the same level with opposite
 /// associativity inside one rule (the yacc-style "same level, mixed associativity" table).
